@@ -225,7 +225,7 @@ Definition tobs_beq (a b : list float * nat) : bool := fl_beq (fst a) (fst b) &&
 (* ---------------------------------------------------------------------------------------
    Finding classes (binary64 only; mirrored in harness/props/C29.py).
    C29-b: the positions are so large that the quantities the Q proof gains per iteration are
-   below 16 ulp of the position (|x| >= 2^48 * q), and the run is still going at the cap.
+   below 16 ulp of the position (|x| >= 2^48 * q, q > 0), and the run is still going at the cap.
    C29-c: tune_centroid parks just outside the limits (by at most 2^-40 relative): the rounded
    centroid  fl(sum_xI / sum_I)  is not clipped.                                            *)
 Section Classes.
@@ -241,14 +241,14 @@ Section Classes.
     let t := if a_backstep p then pymax O (a_thr p) (o_zero O) else o_zero O in
     let delta := o_mul O (o_sub O (o_one O) t) m in
     let q := o_div O (o_mul O m delta) (a_max p) in
-    o_leb O (o_mul O two48 q) (maxabs (a_start p) (a_stop p)).
+    o_ltb O (o_zero O) q && o_leb O (o_mul O two48 q) (maxabs (a_start p) (a_stop p)).
 
   (* q = min(min_step, (num-1) * min_step * (1 - 1/step_factor)) *)
   Definition t_huge (p : tparams (F:=F)) : bool :=
     let delta := o_mul O (o_mul O (o_of_Z O (Z.abs (t_num p - 1))) (t_min p))
                        (o_sub O (o_one O) (o_div O (o_one O) (t_factor p))) in
     let q := pymin O (t_min p) delta in
-    o_leb O (o_mul O two48 q) (maxabs (t_start p) (t_stop p)).
+    o_ltb O (o_zero O) q && o_leb O (o_mul O two48 q) (maxabs (t_start p) (t_stop p)).
 
   Definition finding_C29_b_adaptive (p : aparams (F:=F)) (r : ares (F:=F)) : bool :=
     match r with ARan _ false => a_huge p | _ => false end.
